@@ -108,11 +108,22 @@ theorem matchType_np (d : Doc) (path : String) (v : V) : NP (matchType d path v)
       intro f
       np_leaves
 
+theorem allLoop_np (d : Doc) (path : String) (vs : List V) : NP (allLoop d path vs) := by
+  induction vs with
+  | nil => exact NP_ok _
+  | cons item r ih =>
+    unfold allLoop
+    split
+    · rename_i e he; exact NP_of_error (matchComp_np d "$eq" path item) he
+    · exact ih
+
 theorem matchAll_np (d : Doc) (path : String) (v : V) : NP (matchAll d path v) := by
   unfold matchAll
-  apply matchUnwind_np
-  intro f
-  np_leaves
+  split
+  · split
+    · exact NP_notMatched
+    · exact allLoop_np _ _ _
+  · exact NP_err
 
 theorem intArg_np (v : V) : NP (intArg v) := by
   unfold intArg
@@ -538,7 +549,9 @@ theorem Apply_np (c : ACtx) (hs : ∀ a b, NP (c.sch a b)) (d u : Doc) (afs : Li
   split
   · exact NP_err
   · split
-    · rename_i e he; exact NP_of_error (Apply_ops_np c hs _ _ _) he
-    · exact NP_ok _
+    · exact NP_err
+    · split
+      · rename_i e he; exact NP_of_error (Apply_ops_np c hs _ _ _) he
+      · exact NP_ok _
 
 end Lungo
